@@ -69,6 +69,34 @@ Definition replace_def (sanitize : ustring -> ustring) (repl : list (ustring * r
   | None => convert def_name
   end.
 
+(* The same step with the definition's schema metadata made explicit.  add_ref_types_impl
+   (lib.rs:629-675) has the definition NAME and its SCHEMA (with an optional `title`) in hand;
+   the replacement key is `sanitize(def_name, Case::Pascal)`: the schema is not consulted.
+   This coincides with how the definition's own type is named, get_type_name(Name::Required(def_name), md)
+   (util.rs:790-799: for Required the name wins over the title), and NOT with Name::Suggested,
+   where a title takes precedence. *)
+Record definition := mkDef { d_name : ustring; d_title : option ustring }.
+
+Inductive name_hint := NRequired (n : ustring) | NSuggested (n : ustring) | NUnknown.
+
+(* util.rs get_type_name *)
+Definition get_type_name (sanitize : ustring -> ustring) (h : name_hint) (title : option ustring) : option ustring :=
+  match h, title with
+  | NRequired n, _ => Some (sanitize n)
+  | NSuggested n, None => Some (sanitize n)
+  | _, Some t => Some (sanitize t)
+  | NUnknown, None => None
+  end.
+
+Definition replace_key (sanitize : ustring -> ustring) (d : definition) : ustring := sanitize (d_name d).
+
+Definition replace_definition (sanitize : ustring -> ustring) (repl : list (ustring * replacement))
+           (convert : definition -> entry) (d : definition) : entry :=
+  match assoc (replace_key sanitize d) repl with
+  | Some r => native_entry r
+  | None => convert d
+  end.
+
 (* ---------------------------------------------------------------- conversion cache *)
 Section Cache.
   Variable Sch : Type.                       (* schemars SchemaObject *)
